@@ -12,12 +12,12 @@ Proof. exact unwinding_drop_silent. Qed.
 (* hence a scope that owns an instance and is left by a panic (mock-induced or
    from user code) never reports a second panic *)
 Theorem C11_scope_left_by_panic : forall w x i m a it,
-  bc_std (w_bc w) = true -> live_inst w i = Some it -> matcher_panics (w_cfg w) (w_state w) m a = None ->
+  bc_std (w_bc w) = true -> live_inst w i = Some it -> i_calls it = [] -> matcher_panics (w_cfg w) (w_state w) m a = None ->
   call_panics w (snd (call hinfo N haccepts hdebug (w_cfg w) (w_state w) m a)) = true ->
   snd (step w {| ev_ctx := x; ev_base := BCallOwn i m a |}) =
   show_call w m a (snd (call hinfo N haccepts hdebug (w_cfg w) (w_state w) m a)).
 Proof.
-  intros w x i m a it Hstd Hl Hmp Hp. unfold step. cbn [ev_base ev_ctx]. rewrite Hl, Hmp.
+  intros w x i m a it Hstd Hl Hnc Hmp Hp. unfold step, step_core, releasing. cbn [ev_base ev_ctx]. rewrite Hl, Hnc, Hmp.
   destruct (call hinfo N haccepts hdebug (w_cfg w) (w_state w) m a) as [s' act] eqn:Hc. cbn [snd] in *.
   assert (Hbc : w_bc (after_call w i it s' act) = w_bc w) by (unfold after_call; destruct act; reflexivity).
   destruct (nth_opt (w_insts (after_call w i it s' act)) i) as [it1|] eqn:Hn.
@@ -37,7 +37,7 @@ Theorem C11_state_after_caught_panic : forall w x i m a it,
   w_state (fst (step w {| ev_ctx := x; ev_base := BCall i m a |})) =
   fst (call hinfo N haccepts hdebug (w_cfg w) (w_state w) m a).
 Proof.
-  intros w x i m a it Hl Hm. unfold step. cbn [ev_base ev_ctx]. rewrite Hl, Hm.
+  intros w x i m a it Hl Hm. unfold step, step_core, releasing. cbn [ev_base ev_ctx]. rewrite Hl, Hm.
   destruct (call hinfo N haccepts hdebug (w_cfg w) (w_state w) m a) as [s' act]. cbn [fst].
   unfold after_call. destruct act; reflexivity.
 Qed.
